@@ -14,11 +14,12 @@ EVID = os.path.join(ROOT, "evidence")
 REPLAY = os.path.join(EVID, "replay")
 REPO = os.environ.get("COBYQA_REPO", "/repo")
 ALLOWED_AXIOMS = {"propext", "Classical.choice", "Quot.sound"}
-FORBIDDEN = re.compile(r"\bsorry\b|\badmit\b|^axiom |native_decide|bv_decide|implemented_by|\bunsafe |maxHeartbeats 0")
+FORBIDDEN = re.compile(r"\bsorry\b|\badmit\b|\baxiom\b|native_decide|bv_decide|implemented_by|\bunsafe\b|maxHeartbeats 0")
 
 TRUSTED_BASE = [
     "Lean 4.33 kernel; axioms propext, Classical.choice, Quot.sound only (checked by #print axioms on every theorem of the property file)",
     "the Python correspondence harness, its generators and recorder (ordinary test code: they bound what the tie between model and /repo has seen)",
+    "lean/Driver.lean and lean/DriverAlg.lean (parsing of the line protocol, binary64 arithmetic of the merit value, verdict strings): executed, not proved; scanned for the same forbidden constructs",
     "Lean's Float (+,-,*,/,sqrt) = hardware binary64 = numpy float64 scalar arithmetic; binary64 order = order of the integer keys (Model/Value.lean keyOfBits)",
 ]
 
@@ -74,10 +75,12 @@ def audit(prop_modules):
         path = os.path.join(LEAN, mod.replace(".", "/") + ".lean")
         names += [(mod, n) for n in theorem_names(path)]
     # forbidden constructs anywhere in the library (comments stripped)
-    for dirpath, _, files in os.walk(os.path.join(LEAN, "CobyqaVerif")):
-        for fn in files:
-            if fn.endswith(".lean"):
-                src = strip_comments(open(os.path.join(dirpath, fn)).read())
+    sources = [os.path.join(dp, fn) for dp, _, files in os.walk(os.path.join(LEAN, "CobyqaVerif")) for fn in files if fn.endswith(".lean")]
+    sources += [os.path.join(LEAN, fn) for fn in ("Driver.lean", "DriverAlg.lean", "CobyqaVerif.lean") if os.path.exists(os.path.join(LEAN, fn))]
+    for path_ in sources:
+        for fn in [os.path.basename(path_)]:
+            if True:
+                src = strip_comments(open(path_).read())
                 for ln in src.splitlines():
                     if FORBIDDEN.search(ln):
                         problems.append(f"forbidden construct in {fn}: {ln.strip()[:80]}")
